@@ -2,7 +2,7 @@
 # Builds the whole Coq development from files on disk (offline). Full .vo build, no -vos.
 set -e
 cd "$(dirname "$0")"
-export PYTHONPATH=/repo PYTHONHASHSEED=0 CUDA_VISIBLE_DEVICES="" PYTHONDONTWRITEBYTECODE=1
+export PYTHONPATH=${VERIF_REPO:-/repo} PYTHONHASHSEED=0 CUDA_VISIBLE_DEVICES="" PYTHONDONTWRITEBYTECODE=1
 mkdir -p .work evidence replays coq/gen
 /venv/bin/python -u harness/main.py --gen
 cd coq
